@@ -5,6 +5,7 @@
    where the source has it. *)
 From Coq Require Import ZArith NArith List Bool Lia.
 From RV Require Import Gen.Consts Gen.LinkGuards Model.SvgBuild Model.Links Proofs.SvgBuild Proofs.Links.
+From RV Require Import Model.LinksChk Model.LinksNest Proofs.LinksFrame Proofs.LinksNest.
 Import ListNotations.
 
 (* ---- the converter's reference-following recursion ends: for every document of any size and any mix
@@ -107,6 +108,41 @@ Theorem C03_use_expansion_finite : forall (x : xnode) (nl : Z),
 Proof. exact build_expansion_finite. Qed.
 Print Assumptions C03_use_expansion_finite.
 
+(* ---- extension round 4 ---- *)
+
+(* frame clause of the pre-pass, for every document: the tree skeleton (ids, tags, names, units flags, attribute
+   names, children) is unchanged; no reference appears; and a reference that does NOT lie on a cycle of length
+   <= 2 of the document the pre-pass was given (on_short_cycle: through descendants, of the kind the attribute
+   belongs to, or the feImage shape) is still there with the same value. *)
+Theorem C03_prepass_frame : forall d : snode,
+  skel (prepass d) = skel d /\
+  (forall e, In e (link_table (prepass d)) -> In e (link_table d)) /\
+  (forall id k v, In (id, k, v) (link_table d) -> ~ on_short_cycle d id k -> In (id, k, v) (link_table (prepass d))).
+Proof. exact prepass_frame. Qed.
+Print Assumptions C03_prepass_frame.
+
+(* ... the same with the decidable test the correspondence `chk_impl_frame` applies to the implementation *)
+Theorem C03_prepass_frame_decidable : forall (d : snode) id k v,
+  In (id, k, v) (link_table d) -> on_short_cycle_b d id k = false -> In (id, k, v) (link_table (prepass d)).
+Proof. exact prepass_frame_b. Qed.
+Print Assumptions C03_prepass_frame_decidable.
+
+(* ... and the pre-pass is nothing but a list of `attribute := none` steps, each on a short cycle of the input *)
+Theorem C03_prepass_removes_only_cycle_references : forall d : snode,
+  exists S, prepass d = apply_rm S d /\ Forall (fun p => on_short_cycle d (fst p) (snd p)) S.
+Proof. exact prepass_removes. Qed.
+Print Assumptions C03_prepass_removes_only_cycle_references.
+
+(* nested documents (image / feImage href -> load_sub_svg): for EVERY file system - a file may include itself,
+   directly or through other files or data: URLs - every option set of the caller and every document, loading
+   ends with fuel 2, i.e. sub-documents are loaded to depth 1 only, one Tree::from_data call per reference at most;
+   more fuel gives the same result. *)
+Theorem C03_nested_documents_bounded : forall (fs : fsys) (o : ropt) (d : idoc) (fuel : nat),
+  (exists t, load (S (S fuel)) fs o d = Some t /\ depth t <= 1 /\ calls t <= S (length d)) /\
+  load (S (S fuel)) fs o d = load 2 fs o d.
+Proof. intros. split; [apply nest_bounded|apply nest_fuel_irrelevant]. Qed.
+Print Assumptions C03_nested_documents_bounded.
+
 Local Open Scope N_scope.
 Definition wit : xnode := XN 90 TShape (Some 99) false [(AFill, None)] [].
 Definition svg (ks : list xnode) : xnode := XN 0 TSvg None false [] ks.
@@ -198,3 +234,39 @@ Example C03_nv_acyclic_chain :
   | _ => False
   end.
 Proof. vm_compute. split; reflexivity. Qed.
+
+(* ---- extension round 4: non-vacuity ---- *)
+(* a 2-cycle of clip paths, entered by a shape whose own reference is not on the cycle: one reference of the cycle is
+   removed (it is on a short cycle), the entry reference and the other half stay *)
+Example C03_nv_frame :
+  match build (svg [XN 1 TClipPath (Some 1) true [(AClip, Some 2)] [shape 2];
+                    XN 3 TClipPath (Some 2) true [(AClip, Some 1)] [shape 4];
+                    XN 5 TShape (Some 10) false [(AClip, Some 1)] []; wit]) with
+  | (_, OOk s) =>
+      link_table s = [(2%nat, AClip, 2); (4%nat, AClip, 1); (6%nat, AClip, 1)] /\
+      link_table (prepass s) = [(2%nat, AClip, 2); (6%nat, AClip, 1)] /\
+      map (fun e => match e with (id, k, _) => on_short_cycle_b s id k end) (link_table s) = [true; true; false]
+  | _ => False
+  end.
+Proof. vm_compute. repeat split; reflexivity. Qed.
+
+(* a file that includes itself (path 0 -> file 0) next to a data: document that includes the file again: two
+   sub-documents, nothing below them; the same with any amount of fuel *)
+Example C03_nv_nested_self_include :
+  let fs := fs_of [Some [HPath 0; HData [HPath 0]]]%nat in
+  load 2 fs ropt_default [HPath 0; HData [HPath 0]; HPath 7]%nat = Some (LT [LT []; LT []]) /\
+  load 50 fs ropt_default [HPath 0]%nat = Some (LT [LT []]).
+Proof. vm_compute. split; reflexivity. Qed.
+
+(* duplicate ids: `use` resolves an id to the FIRST element that carries it (id_map), every other reference to the
+   LAST element of the svgtree (doc.links.insert overwrites); all theorems above are stated for arbitrary documents,
+   duplicates included, and the correspondence samples such documents ("random graph dup-id") *)
+Example C03_nv_duplicate_ids :
+  let x := svg [XN 1 TG (Some 1) false [] [shape 2]; XN 3 TClipPath (Some 1) true [] [shape 4];
+                XN 5 TUse None false [(AHref, Some 1)] []; XN 6 TShape (Some 10) false [(AClip, Some 1)] []] in
+  option_map xuid (xfind x 1) = Some 1%nat /\
+  match build x with
+  | (_, OOk s) => option_map s_tag (lookup s 1) = Some TClipPath /\ names (parse x) = Some [1; 10]
+  | _ => False
+  end.
+Proof. vm_compute. repeat split; reflexivity. Qed.
